@@ -1,5 +1,6 @@
 import ClusterVerif.Lemmas.C02
 import ClusterVerif.Lemmas.C02Compose
+import ClusterVerif.Lemmas.C02Ctx
 import ClusterVerif.Model.C02Source
 import ClusterVerif.Gen.C02
 
@@ -652,6 +653,113 @@ theorem clean_keeping_blocks_fails : ¬ clean_keeping_blocks_converges := by
     (by decide) (by decide) 0
   revert this
   decide
+
+/-! ## the caller's context of an accepted operation (round 8)
+
+`LogPin`/`LogUnpin` store the caller's context in the `batchItem`; the worker hands it to
+`batchingState.Add/Rm` later. `Ctx.xrun` is the worker with that context made explicit: every `log`
+carries a context id, `cancel c` (the caller's context is cancelled / expires) may occur ANYWHERE in the
+schedule, `take` succeeds or not according to what the state layer (`Ctx.Layer`) does with a done context. -/
+
+section CallerContext
+open Ctx
+
+/-- **the caller's context is irrelevant** (state layer as it is): every run with contexts — any
+    context per operation, cancellations at any points — is, on the worker state and on the results, the
+    run with the contexts erased (every `take` succeeding, no `cancel`). -/
+theorem ctx_irrelevant_as_is (cfg : Cfg) (evs : List XEv) (x : XSt) :
+    (xrun cfg Layer.asIs x evs).map proj = run cfg x.s (erase evs) :=
+  xrun_asIs_eq_run cfg evs x
+
+/-- … hence WHEN a context is cancelled (before the call, while the item is queued, while the worker is
+    held inside `Commit`, after the take, never) and WHICH context an operation was submitted with changes
+    nothing: two schedules that differ only in that reach the same state with the same results -/
+theorem cancel_position_irrelevant (cfg : Cfg) (e1 e2 : List XEv) (x : XSt) (h : erase e1 = erase e2) :
+    (xrun cfg Layer.asIs x e1).map proj = (xrun cfg Layer.asIs x e2).map proj := by
+  rw [ctx_irrelevant_as_is, ctx_irrelevant_as_is, h]
+
+/-- **accepted ⇒ committed, whatever happens to the caller's context afterwards**: in every run with
+    contexts (no head-write failure, K05d), once the queue is drained and the pending delta committed the
+    pinset is the replay of ALL accepted operations in submission order. -/
+theorem accepted_committed_whatever_ctx (cfg : Cfg) (evs : List XEv) (x : XSt) (rs : List Res)
+    (hr : xrun cfg Layer.asIs {} evs = some (x, rs)) (hb : ∀ e ∈ evs, XEv.benign e = true)
+    (hq : x.s.queue = []) (he : x.s.pend.elems = []) (ht : x.s.pend.tombs = []) (k : Key) :
+    x.s.rep.viewAt k = (replay (acceptedOps (erase evs) rs) []).get k := by
+  have h := ctx_irrelevant_as_is cfg evs {}
+  rw [hr] at h
+  exact order_per_cid_partial cfg (erase evs) x.s rs h.symm (erase_benign evs hb) hq he ht k
+
+/-- a pin submitted with a context that is already done, an unpin whose context is cancelled while it is
+    queued, a pin whose context is cancelled after the take: all enabled, benign, flushed, and the pinset is
+    the replay -/
+abbrev exCtxRun : List XEv :=
+  [.cancel 1, .log (.put 0 5) 1, .log (.del 0) 2, .cancel 2, .take, .take, .commit .ok,
+   .log (.put 1 6) 3, .take, .cancel 3, .log (.put 0 7) 4, .cancel 4, .take, .commit .ok]
+
+example : ((xrun ⟨2, 5⟩ Layer.asIs {} exCtxRun).map fun p =>
+      p.1.s.queue.isEmpty && p.1.s.pend.elems.isEmpty && p.1.s.pend.tombs.isEmpty &&
+      (p.1.s.rep.viewAt 0 == some 7) && (p.1.s.rep.viewAt 1 == some 6)) = some true ∧
+    exCtxRun.all XEv.benign = true := by decide
+
+/-- the same statement for a state layer that returns `ctx.Err()` for a done context -/
+def accepted_committed_honouring_ctx : Prop :=
+  ∀ (cfg : Cfg) (evs : List XEv) (x : XSt) (rs : List Res),
+    xrun cfg ⟨true⟩ {} evs = some (x, rs) → (∀ e ∈ evs, XEv.benign e = true) →
+    x.s.queue = [] → x.s.pend.elems = [] → x.s.pend.tombs = [] →
+    ∀ k, x.s.rep.viewAt k = (replay (acceptedOps (erase evs) rs) []).get k
+
+def witCtx : List XEv := [.log (.put 0 5) 1, .cancel 1, .take]
+
+def witCtxChk (p : XSt × List Res) : Bool :=
+  p.1.s.queue.isEmpty && p.1.s.pend.elems.isEmpty && p.1.s.pend.tombs.isEmpty &&
+    (p.1.s.rep.viewAt 0 != (replay (acceptedOps (erase witCtx) p.2) []).get 0)
+
+/-- **false** for such a layer: pin (0 ↦ 5) accepted, its context cancelled while the item is queued, the
+    worker's `Add` fails and the item is dropped: queue and batch are empty and the pin is not in the pinset.
+    (What the check reports when state/dsstate starts honouring the context: corpus/C02/batch.txt, the
+    `c`/`k`/`x` cases.) -/
+theorem accepted_committed_honouring_ctx_fails : ¬ accepted_committed_honouring_ctx := by
+  intro h
+  have hc : (xrun ⟨1, 5⟩ ⟨true⟩ {} witCtx).map witCtxChk = some true := by decide
+  cases hr : xrun ⟨1, 5⟩ ⟨true⟩ {} witCtx with
+  | none => rw [hr] at hc; cases hc
+  | some p =>
+    obtain ⟨x, rs⟩ := p
+    rw [hr] at hc
+    simp only [Option.map_some, Option.some.injEq, witCtxChk, Bool.and_eq_true, List.isEmpty_iff, bne_iff_ne, ne_eq] at hc
+    obtain ⟨⟨⟨hq, he⟩, ht⟩, hne⟩ := hc
+    exact hne (h ⟨1, 5⟩ witCtx x rs hr (by decide) hq he ht 0)
+
+/-- … and with such a layer a dropped FIRST item of a batch leaves the age timer armed over a nil delta:
+    the timer-triggered `Commit` is the nil-delta publish (worker crash, see notes "Observations") -/
+theorem honouring_ctx_dropped_first_item_crashes_worker :
+    (xrun ⟨3, 5⟩ ⟨true⟩ {} [.log (.put 0 5) 1, .cancel 1, .take, .timerFire, .commit .ok]).map
+      (fun p => p.1.s.crashed) = some true := by decide
+
+/-- **as the code is the worker never reaches the nil-delta publish, whatever the callers' contexts do**:
+    in every run with contexts (any commit failures, head writes included) `crashed` stays false — the only
+    way into it is a failed `Add/Rm`, and no context can make one fail -/
+theorem worker_never_crashes_as_is (cfg : Cfg) (evs : List XEv) (x : XSt) (rs : List Res)
+    (hr : xrun cfg Layer.asIs {} evs = some (x, rs)) : x.s.crashed = false := by
+  have h := ctx_irrelevant_as_is cfg evs {}
+  rw [hr] at h
+  exact (run_noCrash cfg (erase evs) {} x.s rs noCrash_init (erase_no_failed_take evs) h.symm).1
+
+/-- the state layer regenerated from state/dsstate/datastore.go (`Add`, `Rm`, `Get`, `Has`, `List`,
+    `BatchingState.Commit`: every use of the context parameter other than feeding the trace span) IS the
+    layer of the theorems above -/
+theorem gen_state_layer_ignores_ctx : layerOf Gen.dsstateCtxUses = Layer.asIs := by decide
+
+/-- the worker hands the ITEM's context to `Add`/`Rm` and the component's own to `Commit` (regenerated) -/
+theorem gen_worker_ctx_wiring :
+    Gen.workerStateCalls = ["Add batchItem.ctx", "Rm batchItem.ctx", "Commit css.ctx", "Commit css.ctx"] := rfl
+
+/-- `LogPin`/`LogUnpin` enqueue or refuse and consult nothing else — in particular not the context
+    (the select has the send arm and `default` only; regenerated) -/
+theorem gen_log_select : Gen.logPinSelect = ["send css.batchItemCh", "default"] ∧
+    Gen.logUnpinSelect = ["send css.batchItemCh", "default"] := ⟨rfl, rfl⟩
+
+end CallerContext
 
 /-! ### The anchored functions still read as the model was transcribed (regenerated from /repo on every run) -/
 
